@@ -115,8 +115,18 @@ CLAIMED = {
             "tweak_add unconditionally (n odd where the low-S rule is involved); pubkey negate, x-only conversion, keypair create, "
             "schnorrsig sign/verify relative to EcLaws; ecdsa_verify unconditionally; parse_der: py accepts exactly what libsecp parses to a "
             "verifiable pair, and verdict_agree: a DER encoding is accepted (parse+verify) under py iff under libsecp; ecdsa_sign partial "
-            "(away from r=0/s=0 on the first RFC 6979 candidate, probability ~2^-256; witness on a toy group). ecdsa_recover and "
-            "ecdsa_sign_recoverable are corresponded only (GOAL comments). The contract itself (my reading of secp256k1.h + the wrapper) "
+            "(away from r=0/s=0 on the first RFC 6979 candidate, probability ~2^-256; witness on a toy group). Props/C08X.lean adds the "
+            "two remaining functions, so all 26 are covered by theorems: ecdsa_recover in full relative to EcLaws (py's u1*R - u2*G "
+            "over its own candidate list followed by re-verification = SEC 1 4.1.6 r^-1(sR - zG) by recovery id, for ALL 65-byte "
+            "structures, messages and ids, incl. r=0, s=0, r or s >= n, id >= 4, r+n >= p, abscissa off the curve, recovered point at "
+            "infinity; the re-verification is proved never to reject); ecdsa_sign_recoverable PARTIAL: py searches the id by trial "
+            "recovery and an exception leaves the loop, libsecp computes it from the nonce point; equal away from the ecdsa_sign "
+            "region and the explicit decidable region recidSearchSafe = false, i.e. x(R) >= n (ids 2/3, ~2^-128) or id 1 with "
+            "2z + r*d = 0 mod n (~2^-256), with FiniteMultiples (aG finite for 0<a<n) as extra hypothesis; three witness theorems "
+            "on the 31-point curve over F_43 (py raises / contract answers id 3; wrong first candidate recovers infinity; a lucky "
+            "x(R) >= n case where both agree). On secp256k1 the region cannot be reached by signing (needs a nonce with x(R) >= n); "
+            "harness/demo_c08x_recid_search.py shows the loop raising AttributeError on the real code for a valid signature "
+            "with x(R) = n+7 when the two secret-dependent inputs are stubbed. The contract itself (my reading of secp256k1.h + the wrapper) "
             "is validated differentially against the real library on every run, and py vs ctypes are compared directly on the boundary "
             "pool; 14 genuine divergences (incl. three interpreter aborts) were found and repaired by fixes/01..14. Known finding C08-KF1: "
             "in-place variants on an immutable bytes argument.",
@@ -323,12 +333,22 @@ CLAIMED = {
             "payloads, proved by bounding the leading base-58 digits); pub(priv.taproot_tweak h) = pub(priv).taproot_tweak h for both Y "
             "parities, both compression flags and every h incl. empty; the tweaked key has even Y and is BIP341's "
             "Q = lift_x(x(P)) + H_TapTweak(x(P)||h)G, the private result is taproot_tweak_seckey's up to the even-Y normalisation. "
+            "Props/C09X.lean composes the step theorems over paths of ANY length (induction): derive k p IS the BIP32 fold "
+            "CKDpriv(...CKDpriv(m,a)...,z) resp. CKDpub along p in key, chain code, depth (+|p|), parent fingerprint (of the last "
+            "parent), child number (last index) and version, failing exactly when the fold hits an invalid key "
+            "(derive_eq_spec_priv/_pub against Spec/Bip32Path.lean = Spec.derivePriv/derivePub + the serialization bookkeeping; "
+            "derive_eq_spec / derive_eq_spec_pubkey are the key + chain code projections), for every path of indices in [0,2^32) "
+            "within depth 255; both side conditions are sharp (derive_index_range, derive_depth_overflow: refused for every key); "
+            "derive(p).to_public() = to_public().derive(p) for every non-hardened path incl. all failure cases "
+            "(neuter_commutes_path, and _table over the generated versions without text-layer hypothesis), and BIP32's own "
+            "N(CKDpriv..) = CKDpub(N..) along paths with bookkeeping (spec_neuter_commutes, _node). "
             "The model follows the code after three small fixes (fixes/k02, k04, k05); theorems old_* show what the old code did. "
             "Tie to /repo on every run: generated parents (both parities, special scalars, all versions, depth 0..255) x indices "
             "{0,1,2^31-1,2^31,2^32-1,...} x hardened flag, HMAC outputs forced to I_L in {0,1,n-1,n,n+1,2^256-1,n-k,...} by patching "
             "bip32.hmac, list and text paths to depth 255 and beyond, merkle roots {empty,00..,ff..,random,odd lengths}, TapTweak hashes "
             "forced to {0,1,n-1,n,...,zero sum}, the BIP32 vectors of the repository and the BIP341 wallet vectors, every case under the "
-            "ctypes AND the pure-Python backend, compared with the Lean model and with the Lean BIP32 / BIP341 specs; commutation, fold, "
+            "ctypes AND the pure-Python backend, compared with the Lean model and with the Lean BIP32 / BIP341 specs (every in-range derive case also against "
+            "the spec path fold with bookkeeping, op spec.derivenode); commutation, fold, "
             "refusal, parity and round trip are also evaluated directly on embit.",
             "Trusted: Lean kernel + propext/Quot.sound/Classical.choice; EcLaws for secp256k1 is a stated mathematical hypothesis "
             "(a seven-element toy curve shows it is satisfiable); my transcription of BIP32 CKD and the BIP341 reference code "
@@ -356,16 +376,27 @@ CLAIMED = {
             "rejections, each for every input of the class: SEC wrong length / prefix incl. 06,07 / prefix-length mismatch / off-curve X "
             "/ (X,Y) not a point; private key wrong length / scalar 0 or >= n; WIF bad checksum / length / flag / scalar / unknown "
             "version; extended key < 78 or > 78 bytes / bad checksum / version of the wrong kind for the key field / depth 0 with index / "
-            "depth 0 with parent / scalar 0 or >= n / invalid public key; the constructor refuses uncompressed keys. The model follows the "
+            "depth 0 with parent / scalar 0 or >= n / invalid public key; the constructor refuses uncompressed keys. Props/C10X.lean "
+            "proves the converse direction for EVERY decoder — whatever is accepted re-encodes to exactly the input, so no key has a "
+            "second accepted spelling: HDKey.parse b = k => k.serialize = b (78 bytes, text kind = key kind; xkey_parse_sound, "
+            "stream form xkey_read_from_sound, injectivity), HDKey.from_base58 t = k => k.to_base58() = t and from_wif t = k => "
+            "k.wif() = t with a valid scalar (wif_parse_sound, xkey_text_parse_sound; codec law used in the decoding direction "
+            "dec t = b => enc b = t, which is PROVED for the concrete Base58Check layer Model/Base58Check.lean and any checksum "
+            "function — base58_decode_canonical: decode s = b => encode b = s, by reading that model as C11's Base58 model through "
+            "the character codes — so wif_parse_sound_b58 / xkey_text_parse_sound_b58 carry no text-layer hypothesis), the network chosen by from_wif carries exactly the "
+            "text's version byte for every NETWORKS table (wif_network_sound), PublicKey.read_from (key encoding + unread rest = "
+            "stream), from_xonly (even-Y compressed key with x-only = input), PrivateKey / PrivateKey.parse. The model follows the "
             "code after fixes k01 (D13), k03, k04; old_xonly_uncompressed_is_64_bytes states the old behaviour. Tie to /repo on every "
             "run: valid keys x {compressed, uncompressed} x all networks x all 40 version prefixes x depths x indices, and their "
             "encodings corrupted by truncation, extension, prefix / version substitution (incl. private version on public key and vice "
             "versa), coordinate substitution (random / off-curve X, X >= p, X+p aliases of small points, Y+1, -Y, Y >= p), scalars "
             "0/n/n+1/2^256-1, bad checksums, flags, depth 0 with parent or index, random bytes, the BIP32 invalid-key vectors; every case "
-            "under both backends against the Lean model and the Lean encodings spec; round trips and every must-reject class are also "
+            "under both backends against the Lean model and the Lean encodings spec; round trips, every must-reject class and "
+            "'accepted => re-encodes to itself' (xkeys, every accepted WIF, from_xonly, stream reads) are also "
             "evaluated directly on embit with an independent integer-arithmetic curve test.",
             "Trusted: Lean kernel + propext/Quot.sound/Classical.choice; EcLaws for secp256k1 (hypothesis; toy curve as witness of "
-            "satisfiability); the Base58Check law dec(enc b)=b is a hypothesis here (C11 proves the codec), the concrete "
+            "satisfiability); the Base58Check law dec(enc b)=b is a hypothesis of the C10 text round trips (C11 proves it for its codec model); the converse law "
+            "used by C10X is proved for the concrete layer; that concrete "
             "Model/Base58Check.lean is corresponded with embit.base58 every run; the Python harness. Rejection theorems are about the "
             "model, which the correspondence ties to the code; exception classes are not compared (a truncated xkey raises IndexError, "
             "not an EmbitError). The private key rebuilt by HDKey.parse carries the default network (the 78 bytes carry none).",
